@@ -89,6 +89,23 @@ func c13Modes(src string) (kind, detail string, accepted bool) {
 
 // clause B: the second text must be accepted by `mode` without error and have the shape that strict
 // default mode gives to the reference text.
+// c13SameTol applies c13Same in both tolerant mode combinations (tolerant, tolerant+smart; the reference
+// text is parsed in the corresponding non-tolerant mode, so a line-initial bracket means the same on both sides).
+func c13SameTol(src, refSrc string) (kind, detail string, ok bool) {
+	kind, detail, ok = c13Same(src, Mode{Tolerant: true}, refSrc, Mode{})
+	if kind != "" || !ok {
+		return
+	}
+	if gen.HasLineInitialBracket(src) || gen.HasLineInitialBracket(refSrc) {
+		return
+	}
+	k2, d2, ok2 := c13Same(src, Mode{Tolerant: true, Smart: true}, refSrc, Mode{Smart: true})
+	if ok2 && k2 != "" {
+		return k2, d2, true
+	}
+	return
+}
+
 func c13Same(src string, mode Mode, refSrc string, refMode Mode) (kind, detail string, ok bool) {
 	r := parseMode(refSrc, refMode)
 	if r.Panic != "" || r.Err != nil {
@@ -210,7 +227,7 @@ func c13Run(c *core.Ctx) {
 			})
 			c.Inc("inputs")
 			c.Inc("fused_statement_cases")
-			kd, d, ok := c13Same(fused, Mode{Tolerant: true}, def, Mode{})
+			kd, d, ok := c13SameTol(fused, def)
 			if ok {
 				viol("Bi", kd, d, fused, def, len(toks))
 			}
@@ -226,7 +243,7 @@ func c13Run(c *core.Ctx) {
 			}
 			c.Inc("inputs")
 			c.Inc("open_block_cases")
-			kd, d, ok := c13Same(open, Mode{Tolerant: true}, def, Mode{})
+			kd, d, ok := c13SameTol(open, def)
 			if ok {
 				viol("Bii", kd, d, open, def, len(toks))
 			}
@@ -235,7 +252,7 @@ func c13Run(c *core.Ctx) {
 				open2 := gen.Render(toks[:end-r-1], nil, nil)
 				c.Inc("inputs")
 				c.Inc("open_block_cases")
-				kd, d, ok := c13Same(open2, Mode{Tolerant: true}, def, Mode{})
+				kd, d, ok := c13SameTol(open2, def)
 				if ok {
 					viol("Bii", kd, d, open2, def, len(toks))
 				}
@@ -243,7 +260,7 @@ func c13Run(c *core.Ctx) {
 				open3 := gen.Render(toks[:end-r-1], nil, func(int) int { return 1 })
 				c.Inc("inputs")
 				c.Inc("open_block_cases")
-				kd, d, ok = c13Same(open3, Mode{Tolerant: true}, def, Mode{})
+				kd, d, ok = c13SameTol(open3, def)
 				if ok {
 					viol("Bii", kd, d, open3, def, len(toks))
 				}
@@ -379,7 +396,7 @@ func c13Replay(pl json.RawMessage) (string, []core.Violation) {
 	case "C":
 		k, d, _ = c13Same(p.Src, Mode{Smart: true}, p.Src2, Mode{})
 	default:
-		k, d, _ = c13Same(p.Src, Mode{Tolerant: true}, p.Src2, Mode{})
+		k, d, _ = c13SameTol(p.Src, p.Src2)
 	}
 	if k != "" {
 		return out, []core.Violation{{Kind: p.Clause + "-" + k, Case: fmt.Sprintf("%q", p.Src), Detail: d}}
